@@ -375,14 +375,15 @@ fn c12_alarm_lookup_all() {
 }
 
 /// A status message lists the definitions of its non-zero alarm codes in message order: two concrete
-/// code layouts (zeros leading/trailing/in between, a repeated code); one symbolic code: thorough tier.
+/// code layouts (zeros leading/trailing/in between, repeated codes - also in consecutive slots); one
+/// symbolic code: thorough tier.
 #[kani::proof]
 #[kani::unwind(16)]
 #[kani::stub(alloc::fmt::format, crate::stubs::fmt_format)]
 fn c12_alarm_messages_order() {
     let layouts: [[u16; 14]; 2] = [
         [800, 17, 0, 0, 0, 0, 14, 0, 0, 0, 0, 0, 17, 3],
-        [0, 0, 398, 0, 0, 0, 0, 0, 0, 0, 0, 0, 0, 0],
+        [0, 0, 398, 0, 398, 398, 0, 0, 0, 0, 0, 0, 0, 20],
     ];
     let mut l = 0;
     while l < 2 {
